@@ -2,6 +2,7 @@ package main
 
 import (
 	"fmt"
+	"regexp"
 	"go/types"
 	"math/big"
 	"strings"
@@ -256,9 +257,22 @@ func prelude(m Mode) string {
 }
 
 // typeName gives a short stable name for a Go type used in SMT symbols.
+var byteWordRe = regexp.MustCompile(`\bbyte\b`)
+var runeWordRe = regexp.MustCompile(`\brune\b`)
+
 func typeName(t types.Type) string {
+	if b, ok := t.(*types.Basic); ok {
+		switch b.Kind() {
+		case types.Uint8:
+			return "uint8" // byte is the same type
+		case types.Int32:
+			return "int32" // rune is the same type
+		}
+	}
 	s := types.TypeString(t, func(p *types.Package) string {
 		return strings.TrimPrefix(p.Path(), "github.com/semihalev/sdns/")
 	})
+	s = byteWordRe.ReplaceAllString(s, "uint8")
+	s = runeWordRe.ReplaceAllString(s, "int32")
 	return s
 }
